@@ -39,6 +39,11 @@ def endings():
     E.append(('channel-gen', dict(kind='channel', down=2, up=2, pub='gen')))
     E.append(('channel-cancel0', dict(kind='channel', down=2, up=2, pub='manual', cancel_after=0, credit='one')))
     E.append(('channel-cancel1', dict(kind='channel', down=2, up=1, pub='manual', cancel_after=1, credit='one', ending='flag')))
+    # receive-only / deaf responders x requester with / without its own publisher
+    for pub in ('none', 'nonenone'):
+        for up in ((-1, 0, 2) if pub == 'none' else (-1,)):  # a deaf responder never grants credit: only a requester without publisher terminates
+            E.append(('channel-%s-up%d' % (pub, up), dict(kind='channel', down=0, up=up, pub=pub, credit='max',
+                                                         up_ending='flag' if up == 2 else 'complete')))
     E.append(('channel-raise', dict(kind='channel', down=1, up=1, pub='raise')))
     E.append(('fnf', dict(kind='fnf')))
     E.append(('push', dict(kind='push')))
